@@ -52,6 +52,8 @@ type Config struct {
 
 // Node is one simulated node.
 type Node struct {
+	// Jitter makes BeginBlock add a varying sub-millisecond part to every header time.
+	Jitter bool
 	App    *app.OsmosisApp
 	DB     dbm.DB
 	Home   string
@@ -232,6 +234,14 @@ func (n *Node) BeginBlock(dt time.Duration) (pv interface{}) {
 		panic("BeginBlock inside a block")
 	}
 	n.Height++
+	if n.Jitter {
+		// real header times carry nanoseconds: give every block another sub-millisecond part
+		old := int64(n.Time.Nanosecond()) % 1_000_000
+		dt += time.Duration((n.Height*7919+13)%1_000_000 - old)
+		if dt <= 0 {
+			dt = time.Nanosecond
+		}
+	}
 	n.Time = n.Time.Add(dt)
 	hdr := tmproto.Header{ChainID: ChainID, Height: n.Height, Time: n.Time, AppHash: n.LastAppHash,
 		ProposerAddress: sdk.ConsAddress(n.consAddr(0))}
